@@ -26,6 +26,8 @@ var codePkgs = map[string]string{
 	"x/aol/types":   "aoltypes",
 	"x/aol/keeper":  "aolkeeper",
 	"x/did/types":   "didtypes",
+	"x/did/keeper":  "didkeeper",
+	"x/did/internal/secp256k1util": "didsecp",
 }
 
 // files that are not translated (CLI wiring, codec registration, generated code)
@@ -48,6 +50,7 @@ type cfn struct {
 	implicit bool   // receiver is a keeper / server: dropped
 	stateful bool   // runs in M (touches the block context)
 	usesBech bool
+	usesCrypto bool // needs the signature scheme parameter
 	protos   map[string]bool
 	mut      []bool // per parameter slot (receiver first when explicit): written through
 	slots    []*types.Var
@@ -163,7 +166,8 @@ func (g *cgen) leanType(t types.Type) string {
 			fail("named type %s", name)
 		}
 		switch full.Path() + "." + name {
-		case "github.com/cosmos/cosmos-sdk/types.AccAddress":
+		case "github.com/cosmos/cosmos-sdk/types.AccAddress", "github.com/cometbft/cometbft/crypto/secp256k1.PubKey",
+			"github.com/cometbft/cometbft/crypto/secp256k1.PrivKey":
 			return "Bytes"
 		}
 		if ns, ok := g.nsOf(full); ok {
@@ -354,7 +358,7 @@ var leanReserved = map[string]bool{"end": true, "at": true, "from": true, "to": 
 	"break": true, "continue": true, "import": true, "export": true, "local": true, "private": true, "protected": true, "mutual": true,
 	"inductive": true, "deriving": true, "extends": true, "using": true, "calc": true, "nomatch": true, "nofun": true, "macro": true,
 	"syntax": true, "notation": true, "infix": true, "prefix": true, "postfix": true, "set_option": true, "attribute": true, "universe": true,
-	"example": true, "abbrev": true, "world": true, "world0": true, "opaque": true, "axiom": true, "bech": true, "I": true, "Go": true, "strings": true}
+	"example": true, "abbrev": true, "world": true, "world0": true, "crypto": true, "id": true, "opaque": true, "axiom": true, "bech": true, "I": true, "Go": true, "strings": true}
 
 func (c *fctx) nameOf(o types.Object) string {
 	if n, ok := c.names[o]; ok {
@@ -651,6 +655,9 @@ func (c *fctx) selector(e *emitter, ind int, v *ast.SelectorExpr) string {
 		switch v.Sel.Name {
 		case "storeKey":
 			return "(Go.kvStore " + leanStr(storeKeyOf[c.f.ns]) + ")"
+		}
+		if isImplicitRecv(c.info.TypeOf(v)) {
+			return "()" // the embedded keeper: implicit as well
 		}
 		fail("field %s of the keeper", v.Sel.Name)
 	}
@@ -996,6 +1003,31 @@ func (c *fctx) call(e *emitter, ind int, call *ast.CallExpr, want int) []string 
 	}
 	name := calleeName(call.Fun)
 	fn := c.calleeFunc(call)
+	if fn != nil && fn.Pkg() != nil {
+		switch fn.Pkg().Path() + "." + fn.Name() {
+		case modPath + "/x/did/types.Verify":
+			// Verify(signature, signableData, seq, pubKey): sign bytes = DataWithSeq{data.Marshal(), seq}, then the
+			// signature scheme (a parameter); the marshalled document is `Proto.marshal`
+			c.f.usesCrypto = true
+			dt := c.info.TypeOf(call.Args[1])
+			dn := namedOf(dt)
+			if dn == nil {
+				fail("Verify of %s", dt)
+			}
+			c.f.protos[c.g.leanType(dn)] = true
+			data := c.expr(e, ind, call.Args[1])
+			if _, isPtr := dt.Underlying().(*types.Pointer); isPtr {
+				t := c.fresh("d")
+				e.add(ind, fmt.Sprintf("let %s ← %s (Go.deref %s %s)", t, c.lift(), leanStr(exprStr(fset, call.Args[1])), data))
+				data = t
+			}
+			t := c.fresh("t")
+			e.add(ind, fmt.Sprintf("let %s := Go.didVerify crypto %s (Go.Proto.marshal %s) %s %s", t, c.expr(e, ind, call.Args[0]), data, c.expr(e, ind, call.Args[2]), c.expr(e, ind, call.Args[3])))
+			return []string{t + ".1", t + ".2"}
+		case "github.com/btcsuite/btcutil/base58.Decode":
+			return []string{"(Did.b58Decode " + c.expr(e, ind, call.Args[0]) + ")"}
+		}
+	}
 	// translated function?
 	if fn != nil {
 		if cf, ok := c.g.fns[fn]; ok {
@@ -1138,14 +1170,14 @@ func (c *fctx) call(e *emitter, ind int, call *ast.CallExpr, want int) []string 
 	if sel != nil {
 		if inner, ok := sel.X.(*ast.SelectorExpr); ok && inner.Sel.Name == "cdc" {
 			switch sel.Sel.Name {
-			case "MustMarshal":
+			case "MustMarshal", "MustMarshalLengthPrefixed":
 				u, ok := call.Args[0].(*ast.UnaryExpr)
 				if !ok || u.Op != token.AND {
 					fail("MustMarshal of a non-address")
 				}
 				c.f.protos[c.g.leanType(c.info.TypeOf(u.X))] = true
 				return []string{"(Go.Proto.marshal " + c.expr(e, ind, u.X) + ")"}
-			case "MustUnmarshal":
+			case "MustUnmarshal", "MustUnmarshalLengthPrefixed":
 				u, ok := call.Args[1].(*ast.UnaryExpr)
 				id, ok2 := u.X.(*ast.Ident)
 				if !ok || u.Op != token.AND || !ok2 {
@@ -1362,6 +1394,10 @@ func (c *fctx) callTranslated(e *emitter, ind int, cf *cfn, call *ast.CallExpr, 
 		c.f.usesBech = true
 		head += " bech"
 	}
+	if cf.usesCrypto {
+		c.f.usesCrypto = true
+		head += " crypto"
+	}
 	if dict != "" {
 		head += " " + dict
 	}
@@ -1479,7 +1515,7 @@ func (c *fctx) assignTo(e *emitter, ind int, lhs ast.Expr, rhs string, define bo
 		if define && c.info.Defs[l] != nil {
 			n := c.nameOf(o)
 			ty := ""
-			if v, ok := o.(*types.Var); ok && !isCompositeKeyIface(v.Type()) {
+			if v, ok := o.(*types.Var); ok && !isCompositeKeyIface(v.Type()) && !isImplicitRecv(v.Type()) {
 				func() {
 					defer func() { recover() }()
 					ty = " : " + c.g.leanType(v.Type())
@@ -2063,6 +2099,9 @@ func (g *cgen) translate(cf *cfn) {
 	hdr := "def " + cf.lean
 	if cf.usesBech {
 		hdr += " (bech : Go.Bech32)"
+	}
+	if cf.usesCrypto {
+		hdr += " (crypto : Go.SigScheme)"
 	}
 	var pr []string
 	for p := range cf.protos {
